@@ -228,6 +228,53 @@ fn round_trip(ctx: &Ctx, family: &str, class: &str, item: &Item, through_token: 
             }
         }
     }
+    // (2b) items naming public keys, carried by a later first-party block and by a third-party block of a token
+    // whose key table already holds other keys: the block source printed by Biscuit and by UnverifiedBiscuit
+    // (in memory and after a reload) parses back to the item
+    if !matches!(item, Item::Policy(_)) && (printed.contains("ed25519/") || printed.contains("secp256r1/")) {
+        for third_party in [false, true] {
+            let r = guard(|| {
+                let e = |x: biscuit_auth::error::Token| format!("{x:?}");
+                let k3 = pk_str(&ext_key(Alg::Ed, 1).public());
+                let k4 = pk_str(&ext_key(Alg::P256, 1).public());
+                let mut t = b::BiscuitBuilder::new().code("auth(0);").map_err(e)?.build_with_key_pair(&root(Alg::Ed), SymbolTable::new(), &crate::tok::key(Alg::Ed, ROLE_NEXT, 50)).map_err(e)?;
+                t = t.append_with_keypair(&crate::tok::key(Alg::Ed, ROLE_NEXT, 51), b::BlockBuilder::new().code(format!("check if true trusting {k3}, {k4};")).map_err(e)?).map_err(e)?;
+                if third_party {
+                    let req = t.third_party_request().map_err(e)?;
+                    let resp = req.create_block(&ext_key(Alg::Ed, 1).private(), bb.clone()).map_err(e)?;
+                    t = t.append_third_party_with_keypair(ext_key(Alg::Ed, 1).public(), resp, crate::tok::key(Alg::Ed, ROLE_NEXT, 52)).map_err(e)?;
+                } else {
+                    t = t.append_with_keypair(&crate::tok::key(Alg::Ed, ROLE_NEXT, 52), bb.clone()).map_err(e)?;
+                }
+                let bytes = t.to_vec().map_err(e)?;
+                let reloaded = Biscuit::from(&bytes, root(Alg::Ed).public()).map_err(e)?;
+                let unverified = biscuit_auth::UnverifiedBiscuit::from(&bytes).map_err(e)?;
+                let sources = vec![
+                    ("Biscuit in memory", t.print_block_source(2).map_err(e)?),
+                    ("Biscuit reloaded", reloaded.print_block_source(2).map_err(e)?),
+                    ("UnverifiedBiscuit", unverified.print_block_source(2).map_err(e)?),
+                ];
+                let mut out = vec![];
+                for (who, src) in sources {
+                    let back = b::BlockBuilder::new().code(&src).map_err(|x| format!("{who}: source `{src}` does not parse: {x:?}"))?;
+                    let got: Vec<Item> = back.facts.iter().cloned().map(Item::Fact).chain(back.rules.iter().cloned().map(Item::Rule)).chain(back.checks.iter().cloned().map(Item::Check)).collect();
+                    out.push((who, src, got));
+                }
+                Ok::<_, String>(out)
+            });
+            match r {
+                Err(p) => ctx.violation_lazy(format!("C14/panic/{}", panic_site(&p)), || json!({"item": printed, "panic": p})),
+                Ok(Err(e)) => ctx.violation_lazy(key("token-source-does-not-parse"), || json!({"item": printed, "in_third_party_block": third_party, "error": e})),
+                Ok(Ok(views)) => {
+                    for (who, src, got) in views {
+                        if got.len() != 1 || !got[0].same(item) {
+                            ctx.violation_lazy(key("token-source-parses-as-different-code"), || json!({"item": printed, "printed_by": who, "in_third_party_block": third_party, "after_a_block_trusting_other_keys": true, "block_source": src}));
+                        }
+                    }
+                }
+            }
+        }
+    }
     // (3) authorizer dump_code -> AuthorizerBuilder::code
     counters.authorizer_paths.fetch_add(1, Ordering::Relaxed);
     let r = guard(|| {
